@@ -29,6 +29,8 @@ type C18Case struct {
 	// SelfDiff: diff of the directory with itself: 1 = the same path twice, 2 = the second time with a trailing
 	// separator, 3 = a directory that does not exist, given twice
 	SelfDiff int `json:",omitempty"`
+	// OddPath: the analysed directory has a name with a colon and a space in it (a legal directory name)
+	OddPath bool `json:",omitempty"`
 }
 
 func genC18(t *rapid.T) *C18Case {
@@ -76,6 +78,7 @@ func genC18(t *rapid.T) *C18Case {
 			c.SelfDiff = rapid.IntRange(1, 3).Draw(t, "selfdiffkind")
 		}
 	}
+	c.OddPath = rapid.IntRange(0, 2).Draw(t, "oddpath") == 0
 	c.Fail = rapid.IntRange(0, 3).Draw(t, "fail") == 0
 	c.Verb = rapid.SampledFrom([]string{"", "-q", "-v"}).Draw(t, "verb")
 	c.OutFile = rapid.Bool().Draw(t, "f")
@@ -88,6 +91,13 @@ func checkC18(c *C18Case, st *VStats) *VFailure {
 		return &VFailure{Msg: "VERIF_CLI is not set: the built binary is required", Sig: "harness-config"}
 	}
 	dir := c.A.WriteLayout(c.LA)
+	if c.OddPath {
+		odd := dir + "-snap:10 30"
+		if err := os.Rename(dir, odd); err == nil {
+			dir = odd
+			st.Class("directory name with a colon and a space")
+		}
+	}
 	defer os.RemoveAll(dir)
 	for _, f := range c.Extra {
 		writeFile(filepath.Join(dir, f.Path), []byte(f.Content))
